@@ -246,6 +246,15 @@ func (v *PacketDslVisitorImpl) VisitPacketDefinition(ctx *gen.PacketDefinitionCo
 	}
 }
 
+// rejectNonNumericField reports a checksum or length attribute written in front of a field that is not a number
+func (v *PacketDslVisitorImpl) rejectNonNumericField(f *model.Field, fieldAttr gen.IFieldAttributeContext) {
+	v.BinModel.AddSyntaxError(&model.SyntaxError{
+		Line:   fieldAttr.GetStart().GetLine(),
+		Column: fieldAttr.GetStart().GetTokenSource().GetCharPositionInLine(),
+		Msg:    "Checksum and length attributes can only be applied to a numeric field, not to " + f.Name,
+	})
+}
+
 // VisitFieldDefinitionWithAttribute visit field definition with attribute
 func (v *PacketDslVisitorImpl) VisitFieldDefinitionWithAttribute(ctx *gen.FieldDefinitionWithAttributeContext) interface{} {
 
@@ -256,8 +265,17 @@ func (v *PacketDslVisitorImpl) VisitFieldDefinitionWithAttribute(ctx *gen.FieldD
 	for _, fieldAttr := range ctx.AllFieldAttribute() {
 		switch {
 		case fieldAttr.CalculatedFromAttribute() != nil:
+			// a checksum is a number: the attribute cannot turn a string, object or match field into one
+			if _, ok := f.Attr.(*model.BasicFieldAttribute); !ok {
+				v.rejectNonNumericField(f, fieldAttr)
+				continue
+			}
 			f.Attr = &model.CheckSumFieldAttribute{Type: f.GetType(), CheckSumType: fieldAttr.CalculatedFromAttribute().GetFrom().GetText()}
 		case fieldAttr.LengthOfAttribute() != nil:
+			if _, ok := f.Attr.(*model.BasicFieldAttribute); !ok {
+				v.rejectNonNumericField(f, fieldAttr)
+				continue
+			}
 			f.Attr = &model.LengthFieldAttribute{
 				TragetField: &model.Field{Name: fieldAttr.LengthOfAttribute().GetFrom().GetText()},
 				LengthType:  f.GetType(),
